@@ -254,7 +254,35 @@ class FnTir:
                     # `let (a, b) = match x { A => (a1, b1), B => (a2, b2) };`: the components are correlated - the rest of
                     # the block is taken once per arm with the names bound to that arm's components
                     self._split = getattr(self, "_split", 0) + 1
-                    rest = {"k": "block", "stmts": stmts[si + 1:], "expr": e.get("expr")}
+                    # the arms are told apart only as far as the names are used: what follows their last use is written once,
+                    # after the alternatives have joined again (it does not depend on which arm was taken)
+                    bound = set(nm for _, bs in arms for nm, _ in bs)
+                    tail_ = stmts[si + 1:] + ([e["expr"]] if e.get("expr") is not None else [])
+                    last = -1
+                    while True:
+                        # names bound by the statements already inside are in scope after them too: a later use keeps the
+                        # statements together (`let paren = n > 1 && both; if paren {"("} ..; if paren {")"}`)
+                        scope_ = set(bound)
+                        for ts_ in tail_[:last + 1]:
+                            if isinstance(ts_, dict) and ts_.get("k") == "stmt_let":
+                                scope_ |= set(b_["name"] for b_ in walk(ts_["pat"]) if b_.get("k") == "bind")
+                        new_last = last
+                        for ti, ts_ in enumerate(tail_):
+                            if ti > new_last and any(n_.get("k") == "local" and n_.get("name") in scope_ for n_ in walk(ts_)):
+                                new_last = ti
+                        if new_last == last:
+                            break
+                        last = new_last
+                    after = None
+                    if last + 1 < len(tail_):
+                        n_in = last + 1
+                        has_expr = e.get("expr") is not None
+                        in_stmts = stmts[si + 1: si + 1 + n_in]
+                        out_stmts = stmts[si + 1 + n_in:]
+                        after = {"k": "block", "stmts": out_stmts, "expr": e.get("expr")}
+                        rest = {"k": "block", "stmts": in_stmts, "expr": None}
+                    else:
+                        rest = {"k": "block", "stmts": stmts[si + 1:], "expr": e.get("expr")}
                     pre = self.W_nonsink_args(H.peel_ref(s["init"]).get("scrut") or H.peel_ref(s["init"]).get("cond"))
                     alts = []
                     for g, binds in arms:
@@ -278,6 +306,8 @@ class FnTir:
                     self._split -= 1
                     items.append(pre)
                     items.append(("alt", alts))
+                    if after is not None:
+                        items.append(self.W(after))
                     return ("seq", items)
                 items.append(self.W(s))
             if e.get("expr") is not None:
@@ -641,6 +671,14 @@ class FnTir:
             if nm in self.env:
                 return self.env[nm]
             return self.hole_for(e, "local " + nm)
+        if k == "path" and ("Const" in (e.get("dk") or "") or "Static" in (e.get("dk") or "")) and e.get("def") in self.f.fns and depth < 8:
+            # a named text constant (`const AND_SEPARATOR: &str = " AND ";`): its initialiser
+            cb = self.f.fns[e["def"]].get("hir")
+            cb = H.peel_ref(H.peel(cb)) if isinstance(cb, dict) else None
+            while isinstance(cb, dict) and cb.get("k") == "block" and not cb.get("stmts") and cb.get("expr") is not None:
+                cb = H.peel_ref(H.peel(cb["expr"]))
+            if isinstance(cb, dict) and cb.get("k") == "lit" and cb["lit"]["t"] in ("str", "char"):
+                return ("lit", cb["lit"]["v"])
         if k == "tuple_field":
             b_ = H.peel_ref(e["base"])
             if b_.get("k") == "local" and b_.get("name") in self.env_tuple and e["idx"] < len(self.env_tuple[b_["name"]].get("es") or []):
